@@ -1,5 +1,6 @@
 import TypifyModel.Proofs.C05
 import TypifyModel.Proofs.C05Enc
+import TypifyModel.Proofs.Tagging
 open TypifyModel.C05
 #print axioms charCount_eq_length
 #print axioms string_constraints_enforced
@@ -14,3 +15,8 @@ open TypifyModel.C05
 #print axioms TypifyModel.C05E.enc_sound
 #print axioms TypifyModel.C05E.encD_sound
 #print axioms TypifyModel.C05E.struct_sound
+#print axioms TypifyModel.Tagging.intTag_sound
+#print axioms TypifyModel.Tagging.tagged_branches_exclusive
+#print axioms TypifyModel.Tagging.external_names_nodup
+#print axioms TypifyModel.Tagging.adjacent_sound
+#print axioms TypifyModel.Tagging.internal_panics_only_on_assert
